@@ -148,7 +148,8 @@ def main(tier_: str) -> int:
         if True:
             if True:
                 if True:
-                    for dd, sod, us, off in combos:
+                    from dashlive.utils.objects import flatten
+                    for dd, sod, us, off, via_flatten in [c + (0,) for c in combos] + [c + (1,) for c in combos[::7]]:
                         local = datetime.datetime(dd.year, dd.month, dd.day) + datetime.timedelta(seconds=sod, microseconds=us)
                         if off == 0:
                             tz: Any = UTC()
@@ -161,8 +162,12 @@ def main(tier_: str) -> int:
                               'f': {'y': 0, 'mo': 0, 'd': 0, 'h': 0, 'mi': 0, 's': 0, 'us': 0, 'off': 0, 'lex': 0},
                               'pinst': {'d': 0, 's': 0, 'u': 0}, 'poff': 0}
                         try:
-                            text = to_iso_datetime(val)
+                            # two renderers of the same value: to_iso_datetime, and objects.flatten (JSON forms, the toJson filter)
+                            text = flatten(val) if via_flatten else to_iso_datetime(val)
+                            if not isinstance(text, str):
+                                raise TypeError(f'flatten returned {type(text).__name__}')
                             ln['text'] = text
+                            ln['renderer'] = 'flatten' if via_flatten else 'to_iso_datetime'
                             m = M.DT_RE.match(text)
                             if m:
                                 y, mo, d_, h, mi, s_, frac, tzs = m.groups()
